@@ -523,10 +523,13 @@ class WcsSampler(object):
             hi2 = min(e2 + 1, coarse_lat.shape[1] - 1)
 
             # Now figure out how many samples to compute in our refined grid.
-            # We want to sample essentially every pixel.
+            # We want to sample essentially every pixel, *including both ends
+            # of the window*: if the far end were left out (as happens with a
+            # single sample), the bounds of small images would fall short of
+            # their true footprint.
 
-            n1 = max(int(np.ceil(coarse_idx1[hi1] - coarse_idx1[lo1])), 1)
-            n2 = max(int(np.ceil(coarse_idx2[hi2] - coarse_idx2[lo2])), 1)
+            n1 = max(int(np.ceil(coarse_idx1[hi1] - coarse_idx1[lo1])) + 1, 2)
+            n2 = max(int(np.ceil(coarse_idx2[hi2] - coarse_idx2[lo2])) + 1, 2)
 
             # Generate that grid.
 
@@ -542,9 +545,11 @@ class WcsSampler(object):
                 refined_pix.reshape((-1, 2)), 1
             ).reshape((n1, n2, 2))
 
-            # Find the *real* extreme value and convert to radians
+            # Find the *real* extreme value and convert to radians. The refined
+            # grid need not contain the coarse extremum itself, so make sure
+            # that we never do worse than it.
 
-            refined_grid = refined_world[..., 1].flatten()
+            refined_grid = np.append(refined_world[..., 1].flatten(), coarse_lat[e1, e2])
             return refined_grid[arg_op(refined_grid)] * D2R
 
         lat_min = refine_lat(np.argmin)
@@ -592,7 +597,7 @@ class WcsSampler(object):
                 # "top" edge (thinking of array as [lon, lat] ~ [x, y])
                 lo = max(e - 1, 0)
                 hi = min(e + 1, nm)
-                n = max(int(np.ceil(coarse_idx1[hi] - coarse_idx1[lo])), 1)
+                n = max(int(np.ceil(coarse_idx1[hi] - coarse_idx1[lo])) + 1, 2)
                 refined_idx1 = np.linspace(coarse_idx1[lo], coarse_idx1[hi], n)
                 refined_idx2 = np.zeros(n) + coarse_idx2[0]
             elif e < 2 * nm:
@@ -600,7 +605,7 @@ class WcsSampler(object):
                 rel = e - nm
                 lo = max(rel - 1, 0)
                 hi = min(rel + 1, nm)
-                n = max(int(np.ceil(coarse_idx2[hi] - coarse_idx2[lo])), 1)
+                n = max(int(np.ceil(coarse_idx2[hi] - coarse_idx2[lo])) + 1, 2)
                 refined_idx1 = np.zeros(n) + coarse_idx1[nm]
                 refined_idx2 = np.linspace(coarse_idx2[lo], coarse_idx2[hi], n)
             elif e < 3 * nm:
@@ -608,7 +613,7 @@ class WcsSampler(object):
                 rel = 3 * nm - (1 + e)
                 lo = max(rel - 1, 0)
                 hi = min(rel + 1, nm)
-                n = max(int(np.ceil(coarse_idx1[hi] - coarse_idx1[lo])), 1)
+                n = max(int(np.ceil(coarse_idx1[hi] - coarse_idx1[lo])) + 1, 2)
                 refined_idx1 = np.linspace(coarse_idx1[lo], coarse_idx1[hi], n)
                 refined_idx2 = np.zeros(n) + coarse_idx2[nm]
             else:
@@ -617,7 +622,7 @@ class WcsSampler(object):
                 rel = 4 * nm - e
                 lo = max(rel - 1, 0)
                 hi = min(rel + 1, nm)
-                n = max(int(np.ceil(coarse_idx2[hi] - coarse_idx2[lo])), 1)
+                n = max(int(np.ceil(coarse_idx2[hi] - coarse_idx2[lo])) + 1, 2)
                 refined_idx1 = np.zeros(n) + coarse_idx1[0]
                 refined_idx2 = np.linspace(coarse_idx2[lo], coarse_idx2[hi], n)
 
@@ -634,6 +639,9 @@ class WcsSampler(object):
             # re-unwrap here.
 
             refined_lon += 360 * deltas[e]
+
+            # As with the latitudes, never do worse than the coarse extremum.
+            refined_lon = np.append(refined_lon, coarse_edge_lons[e])
 
             # Convert to radians and we're done.
             return refined_lon[arg_op(refined_lon)] * D2R
